@@ -101,6 +101,16 @@ fn conv_oracle(c: &Conv) -> Verdict {
         let later = lib!(e + Duration::from_total_nanoseconds(1));
         ensure!(lib!(later > r) && lib!(r < later) && lib!(later.cmp(&r)) == Ordering::Greater && lib!(r.cmp(&later)) == Ordering::Less, "{} count {} + 1 ns does not compare greater than its conversion to {}", SCALE_NAMES[c.a], c.c, SCALE_NAMES[c.b]);
     }
+    // the instant as far BEFORE 1900-01-01 TAI as e lies after it (or vice versa), expressed in the target scale, is a
+    // different instant: never equal, ordered by sign
+    {
+        let m = -tai - zero_tai_ns(c.b);
+        if tai != 0 && inr(m) {
+            let f = Epoch::from_duration(mk(m), SCALES[c.b]);
+            ensure!(!lib!(e == f) && !lib!(f == e) && lib!(e != f), "{} count {} compares equal to its mirror image about 1900, {} count {}", SCALE_NAMES[c.a], c.c, SCALE_NAMES[c.b], m);
+            ensure!(lib!(e > f) == (tai > 0) && lib!(f < e) == (tai > 0), "{} count {} vs its mirror image {} count {}: wrong order", SCALE_NAMES[c.a], c.c, SCALE_NAMES[c.b], m);
+        }
+    }
     // text views of the target reading: the Gregorian string in the target scale, {:x} (TAI) and {:X} (TT)
     {
         let gw = want + greg_offset_ns(c.b);
@@ -240,7 +250,7 @@ fn const_enum(_t: Tier, shard: usize, sink: &mut dyn FnMut(ConstCase) -> bool) {
     }
 }
 
-fn const_oracle(c: &ConstCase) -> Verdict {
+pub fn const_oracle(c: &ConstCase) -> Verdict {
     use hifitime::*;
     let gps = zero_tai_ns(S_GPST);
     let gst = zero_tai_ns(S_GST);
